@@ -184,6 +184,67 @@ Proof.
 Qed.
 Print Assumptions C17_platforms_converge.
 
+(** The same over the SERVER's state (all discussions / comments the API holds, including other people's, system
+    and general notes): List's filter is part of the platform.  L1 holds; what List does not show is never recognised
+    as covering a problem, never deleted and still there after the run; GitHub never deletes anything; and the
+    generic theorems (covered-or-deferred, no duplicates, stale removed, idempotent, converges) apply verbatim. *)
+Theorem C17_server_platforms_L1 :
+  (forall diffs m pend, (forall p, In p pend -> (0 < pc_line p)%Z /\ pc_path p <> ""%string) -> L1 (gitlab_srv diffs m) pend) /\
+  (forall files m pend, (forall p, In p pend -> pc_path p <> ""%string) -> L1 (github_srv files m) pend).
+Proof. split; [exact gitlab_srv_L1_list|exact github_srv_L1_list]. Qed.
+Print Assumptions C17_server_platforms_L1.
+
+Theorem C17_foreign_untouched :
+  (forall diffs m store pend n, In n store -> gl_view n = None ->
+     In n (fst (step (gitlab_srv diffs m) store pend)) /\
+     ~ In n (l_deleted (snd (step (gitlab_srv diffs m) store pend))) /\
+     forall p, In p pend -> is_equal (gitlab_srv diffs m) n p = false) /\
+  (forall files m store pend c, In c store ->
+     In c (fst (step (github_srv files m) store pend)) /\ l_deleted (snd (step (github_srv files m) store pend)) = []).
+Proof.
+  split.
+  - intros diffs m store pend n Hin Hv. apply invisible_untouched; auto; cbn [is_equal can_delete gitlab_srv]; now rewrite Hv.
+  - intros files m store pend c Hin.
+    destruct (stale_removed (github_srv files m) store pend c Hin) as [_ B].
+    assert (Hs : forall x, stale (github_srv files m) pend x = false) by (intros x; unfold stale; cbn [can_delete github_srv]; apply andb_false_r).
+    split; [apply B, Hs|]. unfold step. destruct (create_phase _ _ _ _) as [c0 d0]. cbn [snd l_deleted].
+    apply filter_none. intros x _. apply Hs.
+Qed.
+Print Assumptions C17_foreign_untouched.
+
+Theorem C17_server_platforms_converge :
+  (forall diffs m store pend k,
+     (forall p, In p pend -> (0 < pc_line p)%Z /\ pc_path p <> ""%string) ->
+     (List.length (todo (gitlab_srv diffs m) store pend) <= S k * m)%nat ->
+     todo (gitlab_srv diffs m) (run_n (gitlab_srv diffs m) (S k) store pend) pend = [] /\
+     let s' := run_n (gitlab_srv diffs m) (S k) store pend in
+     fst (step (gitlab_srv diffs m) s' pend) = s' /\ stored (l_created (snd (step (gitlab_srv diffs m) s' pend))) = [] /\
+     l_deleted (snd (step (gitlab_srv diffs m) s' pend)) = []) /\
+  (forall files m store pend k,
+     (forall p, In p pend -> pc_path p <> ""%string) ->
+     (List.length (todo (github_srv files m) store pend) <= S k * m)%nat ->
+     todo (github_srv files m) (run_n (github_srv files m) (S k) store pend) pend = [] /\
+     let s' := run_n (github_srv files m) (S k) store pend in
+     fst (step (github_srv files m) s' pend) = s' /\ stored (l_created (snd (step (github_srv files m) s' pend))) = []).
+Proof.
+  split.
+  - intros diffs m store pend k Hv Hn. pose proof (gitlab_srv_L1_list diffs m pend Hv) as HL.
+    split; [apply (converged_todo_nil _ m); auto|]. cbn zeta.
+    change (run_n (gitlab_srv diffs m) (S k) store pend)
+      with (run_n (gitlab_srv diffs m) k (fst (step (gitlab_srv diffs m) store pend)) pend).
+    rewrite <- (run_n_snoc (gitlab_srv diffs m) k store pend).
+    destruct (idempotent (gitlab_srv diffs m) (run_n (gitlab_srv diffs m) k store pend) pend HL
+                (converges (gitlab_srv diffs m) m store pend k HL (fun _ => eq_refl) Hn)) as (A & B & C & _). auto.
+  - intros files m store pend k Hv Hn. pose proof (github_srv_L1_list files m pend Hv) as HL.
+    split; [apply (converged_todo_nil _ m); auto|]. cbn zeta.
+    change (run_n (github_srv files m) (S k) store pend)
+      with (run_n (github_srv files m) k (fst (step (github_srv files m) store pend)) pend).
+    rewrite <- (run_n_snoc (github_srv files m) k store pend).
+    destruct (idempotent (github_srv files m) (run_n (github_srv files m) k store pend) pend HL
+                (converges (github_srv files m) m store pend k HL (fun _ => eq_refl) Hn)) as (A & B & _). auto.
+Qed.
+Print Assumptions C17_server_platforms_converge.
+
 (* ---- refutations ---------------------------------------------------------------------------------- *)
 
 Definition witness_diff : string := "@@ -3,7 +3,5 @@
